@@ -252,6 +252,8 @@ func elecRun(w *World) {
 			if !ok {
 				return
 			}
+			// (a copy, taken when the event is received: what the stream said then is what counts)
+			c.ActiveMode = proto.Clone(c.ActiveMode).(*traits.ElectricMode)
 			activeEvents = append(activeEvents, c)
 		}
 	})
